@@ -134,11 +134,13 @@ package consensus
 //@   requires block != nil && block.Header != nil && wfTxs(block.Txs) && params.MinGasPrice != nil
 //@   modifies nothing
 //@   ensures result == nil ==> forall(i, 0, len(block.Txs), types.boxOK(block.Txs[i]))
+//@   ensures result == nil ==> forall(i, 0, len(block.Txs), types.subsInWindow(block.Txs[i], uint64(block.Time())))
 //@   ensures result == nil ==> !txGuard.ExistTxs(block.ParentHash(), block.Txs)
 //@   ensures result == nil ==> forall(i, 0, len(block.Txs), forall(j, 0, len(block.Txs), i != j ==> block.Txs[i].Hash() != block.Txs[j].Hash()))
 //@   ensures result == nil ==> forall(i, 0, len(block.Txs), uint64(block.Time()) <= block.Txs[i].data.Expiration && block.Txs[i].data.Expiration - uint64(block.Time()) <= 1800)
 //@   ensures result != nil ==> result == ErrVerifyBlockFailed
 //@   invariant @loop 0: forall(i, 0, $k, types.boxOK(block.Txs[i]))
+//@   invariant @loop 0: forall(i, 0, $k, types.subsInWindow(block.Txs[i], uint64(block.Time())))
 //@   invariant @loop 0: 0 <= $k && $k <= len(block.Txs) && seen != nil && forall(i, 0, $k, uint64(block.Time()) <= block.Txs[i].data.Expiration && block.Txs[i].data.Expiration - uint64(block.Time()) <= 1800)
 //@   invariant @loop 0: forall(i, 0, $k, has(seen, block.Txs[i].Hash())) && forall(i, 0, $k, forall(j, 0, $k, i != j ==> block.Txs[i].Hash() != block.Txs[j].Hash()))
 //@   invariant @loop 1: len(hashes) >= 1 && hashes[0] == tx.Hash() && fresh(hashes)
